@@ -282,7 +282,7 @@ def influence_matrix_shared_option(case, v):
     msg = _msg(v)
     if v['kind'] in ('decode_failed', 'row_decode_failed', 'redecode_failed'):
         return any(t in msg for t in ('Unexpected inactive choice', 'Des var node not found', 'Connection choice not does',
-                                      'Infeasible graph specified'))
+                                      'Infeasible graph specified', 'No more feasible architectures'))
     return True
 
 
